@@ -324,6 +324,16 @@ func init() {
 	reg("Symbolic", func(e *Exec, fv *FuncV, args []Value, cc *ssa.CallCommon) (Value, bool) {
 		return e.C.True, false
 	})
+	reg("NCSFail", func(e *Exec, fv *FuncV, args []Value, cc *ssa.CallCommon) (Value, bool) {
+		// NCSFail(k): the credit service receives the k-th request (0-based) and then fails
+		fails, _ := e.ext["ncs.fail"].(map[int]bool)
+		if fails == nil {
+			fails = map[int]bool{}
+			e.ext["ncs.fail"] = fails
+		}
+		fails[e.concreteInt(args[0], "request index")] = true
+		return nil, false
+	})
 	reg("Terminates", func(e *Exec, fv *FuncV, args []Value, cc *ssa.CallCommon) (Value, bool) {
 		// Terminates(n, label): from here on the path may execute at most n more SSA instructions; n = 0 ends the
 		// obligation. Exceeding the budget on a feasible path is a violation of kind "wedge" (a handler that spins).
